@@ -141,7 +141,12 @@ def run(ctx: Ctx):
     ctx.step(adjacency_symmetry, f, bfs, "C08-O1")
 
     # O2 residual formula agreement
-    it = [n for n in own_nodes(bfs.node) if isinstance(n, ast.For) and isinstance(n.iter, ast.Subscript)][0]
+    fors = [n for n in own_nodes(bfs.node) if isinstance(n, ast.For)]
+    its = [n for n in fors if isinstance(n.iter, ast.Subscript)]
+    ctx.ob("C08-O5", "R21 search discipline", bfs, "the search scans the row of the node it left in a table built arc by arc (`for x in <table>[node]`; C08-O1 checks that the table is keyed both ways)", len(its) == 1, f"`for {ast.unparse(fors[0].target)} in {ast.unparse(fors[0].iter)}`: " + "rows copied while the table is still being built lack the reverse arcs of tails that are read later (`capacity[v][u] += 0` runs when v's tail is processed), so the search cannot cancel flow along them and stops below the minimum cut" if fors else "no neighbour loop", node=(its or fors or [bfs.node])[0])
+    if not its:
+        return  # the remaining obligations are about that loop
+    it = its[0]
     a, b = ast.unparse(it.iter.slice), it.target.id
 
     def residual_of(scope_nodes, names):
@@ -375,6 +380,15 @@ def _t_reformat(tree):
     pass
 
 
+def _v_frozen_rows(tree):
+    g = M.find_func(tree, "max_flow")
+    M.replace_stmt(g, lambda s: isinstance(s, ast.For) and M.src_is(s.iter, "graph"), lambda s: M.stmts("rows = {}") + [s] + M.stmts("for u in graph:\n    rows[u] = tuple(capacity[u])"))
+    for lp in [n for n in ast.walk(g) if isinstance(n, ast.For) and M.src_is(n.iter, "graph")][:1]:
+        lp.body.append(M.stmts("rows[u] = tuple(capacity[u])")[0])
+    b = M.find_func(tree, "max_flow.bfs")
+    M.replace_expr(b, lambda e: M.src_is(e, "capacity[node]"), M.expr("rows.get(node, ())"), count=1)
+
+
 def _t_adj_sets(tree):
     """equally valid: explicit symmetric adjacency sets iterated by the search"""
     g = M.find_func(tree, "max_flow")
@@ -448,6 +462,7 @@ VARIANTS = [
     M.Variant("reverse residual key created only the first time a node is seen (seed C08-E)", FL, _v_reverse_key_first_time_only, "C08-O1"),
     M.Variant("source == sink is not rejected (original defect: the call never returns)", FL, _v_same_terminals_accepted, "C08-O6"),
     M.Variant("augmentation stops once a bound computed from net capacities is reached (seed C08-I)", FL, _v_stop_at_net_capacity, "C08-O3"),
+    M.Variant("the search scans rows frozen while the table was still being built: reverse arcs of tails read later are missing (seed C08-X)", FL, _v_frozen_rows, "C08-O5"),
     M.Variant("twin: reformat", FL, _t_reformat, None),
     M.Variant("twin: explicit symmetric adjacency sets iterated by the search", FL, _t_adj_sets, None),
 ]
